@@ -396,4 +396,34 @@ Qed.
 Print Assumptions C12_step_%s.
 """ % (CY, AC, SP, CY, EA, CY, CY, CY, AC, TRUE, TRUE, call, stp_ops, mod, mod, mod, mod))
     lemmas += ["step_cycles", "C12_step_" + mod, "step_contract_" + mod]
+    # C12 (ii) "until the CPU is reset": the other entry points.  Stated unconditionally: if Reset stops assigning the
+    # stop flag (or TriggerIRQ starts to) the C08 lemma of that routine has another shape and these proofs fail.
+    out.append("""(* Reset clears the stop condition; TriggerIRQ / triggerNMI keep it; all three keep the fields in range, no panic *)
+Ltac stop_post H' :=
+  cbv beta; split;
+  [ let pf := get_pred_pf H' %s in let Hs := fresh "Hs" in pose proof pf as Hs; cbv beta in Hs; symmetry; exact Hs
+  | do 4 (eapply inv_ovr_base in H'); exact H' ].
+Theorem C12_reset_%s : forall s, Inv (Bty fwidth) s ->
+  safe (fun _ s' => get %s s' = 0 /\\ Inv (Bty fwidth) s') (Reset s).
+Proof.
+  intros s H. eapply safe_weaken; [ eapply safe_Reset; do 4 apply inv_ovr_true; exact H | ].
+  intros r s' [_ H']. stop_post H'.
+Qed.
+Theorem C12_irq_%s : forall s, Inv (Bty fwidth) s ->
+  safe (fun _ s' => get %s s' = get %s s /\\ Inv (Bty fwidth) s') (TriggerIRQ s).
+Proof.
+  intros s H. eapply safe_weaken;
+    [ eapply safe_TriggerIRQ; do 3 apply inv_ovr_true; eapply (inv_ovr_intro _ _ (eq (get %s s))); [exact H | reflexivity] | ].
+  intros r s' [_ H']. stop_post H'.
+Qed.
+Theorem C12_nmi_%s : forall s, Inv (Bty fwidth) s ->
+  safe (fun _ s' => get %s s' = get %s s /\\ Inv (Bty fwidth) s') (triggerNMI s).
+Proof.
+  intros s H. eapply safe_weaken;
+    [ eapply safe_triggerNMI; do 3 apply inv_ovr_true; eapply (inv_ovr_intro _ _ (eq (get %s s))); [exact H | reflexivity] | ].
+  intros r s' [_ H']. stop_post H'.
+Qed.
+Print Assumptions C12_reset_%s.
+""" % (SP, mod, SP, mod, SP, SP, SP, mod, SP, SP, SP, mod))
+    lemmas += ["C12_reset_" + mod, "C12_irq_" + mod, "C12_nmi_" + mod]
     return "\n".join(out), {"lemmas": lemmas, "setters": sorted(setter_names), "stp_opcodes": stp_ops}
